@@ -70,7 +70,10 @@ class Module:
         self.digest = hashlib.sha1(raw).hexdigest()
         self.src = raw.decode('utf-8', errors='replace')
         try:
-            self.tree = ast.parse(self.src, filename=path)
+            import warnings
+            with warnings.catch_warnings():
+                warnings.simplefilter('ignore')
+                self.tree = ast.parse(self.src, filename=path)
         except SyntaxError as err:
             raise AnalysisError(f'cannot parse {path}: {err}')
         for node in ast.walk(self.tree):
